@@ -3,7 +3,6 @@ package main
 import (
 	"fmt"
 	"go/token"
-	"strings"
 
 	"golang.org/x/tools/go/ssa"
 )
@@ -91,17 +90,37 @@ func isCountedPhi(p *ssa.Phi) bool {
 // functions (which account for where the record starts).
 func ruleLimitDivision(r *Report, rule string) {
 	allowed := map[string]bool{"index.bucketPosToFileNum": true, "mhprimary.primaryPosToFileNum": true}
+	// limit values: the size-limit fields, and (transitively) parameters that
+	// receive a limit value at some call site in the module
+	limitParams := map[*ssa.Parameter]bool{}
 	isLimit := func(v ssa.Value) bool {
 		return derives(v, flowOpts{}, func(x ssa.Value) bool {
 			switch fieldOfLoad(x) {
 			case "Index.maxFileSize", "MultihashPrimary.maxFileSize", "Header.MaxFileSize", "IndexRemapper.maxFileSize":
 				return true
 			}
-			if p, ok := x.(*ssa.Parameter); ok && strings.Contains(strings.ToLower(p.Name()), "maxfilesize") {
+			if p, ok := x.(*ssa.Parameter); ok && limitParams[p] {
 				return true
 			}
 			return false
 		})
+	}
+	for changed := true; changed; {
+		changed = false
+		for _, fn := range moduleFuncs(r.E) {
+			for _, c := range allCalls(fn) {
+				callee := c.Common().StaticCallee()
+				if callee == nil || callee.Blocks == nil || !r.E.InModule(callee) {
+					continue
+				}
+				for i, a := range c.Common().Args {
+					if i < len(callee.Params) && !limitParams[callee.Params[i]] && shortType(a.Type()) == "uint32" && isLimit(a) {
+						limitParams[callee.Params[i]] = true
+						changed = true
+					}
+				}
+			}
+		}
 	}
 	n := 0
 	for _, fn := range moduleFuncs(r.E) {
